@@ -46,7 +46,7 @@ CLAIMS = {
   note="Assumes 0 <= offset, 0 < count <= 2^32-1 at WithPartial's call site (established by the parser's number bound, C16). Undecided: Header.Fields/FieldsNot loops over the linked list, SetHeaderValueNoMemCopy, literal framing, store round trip (C09).",
   ref="DESIGN.md §4 C13"),
  "C10": dict(
-  text="Deductive proof that the scanner classifies every byte value into exactly the RFC 3501 character class (total, loop-free, so complete), that ByteToLower/ByteToInt are the arithmetic they claim, that the token look-ahead of the parser is the next unread byte of the source, and that number / sequence-number / sequence-range / sequence-set parsers return values within the ranges written. Every RFC 3501 ATOM-CHAR / ASTRING-CHAR is accepted as one (known finding: `[` is refused) and an unquoted astring stops exactly in front of the first byte that is no ASTRING-CHAR. Keywords are matched case-insensitively: the case-sensitive matcher Parser.ConsumeBytes has no caller in the module (syntactic whole-module obligation). Composite commands (fetch attributes, search keys, ...) are not under functional contract.",
+  text="Deductive proof that the scanner classifies every byte value into exactly the RFC 3501 character class (total, loop-free, so complete), that ByteToLower/ByteToInt are the arithmetic they claim, that the token look-ahead of the parser is the next unread byte of the source, and that number / sequence-number / sequence-range / sequence-set parsers return values within the ranges written. Every RFC 3501 ATOM-CHAR / ASTRING-CHAR is accepted as one (known finding: `[` is refused) and an unquoted astring stops exactly in front of the first byte that is no ASTRING-CHAR. For the arguments of LOGIN, SELECT, EXAMINE, CREATE, DELETE, RENAME, SUBSCRIBE, UNSUBSCRIBE, STATUS, LIST, LSUB, APPEND, COPY, MOVE, FETCH, STORE, UID EXPUNGE, ID, header lists and FETCH partials the parser is proved to read each argument with the production the RFC grammar names (mailbox / userid / password / header-fld-name = astring, nstring = string or NIL, partial = number '.' nz-number, sequence-set). Keywords are matched case-insensitively: the case-sensitive matcher Parser.ConsumeBytes has no caller in the module (syntactic whole-module obligation). Composite commands (fetch attributes, search keys, ...) are not under functional contract.",
   note="Assumes the Reader model (finite byte sequence then EOF forever, trusted spec of Reader.ReadByte). Undecided: exact decimal value of numbers, strings/literals, dates, composite command grammar, case-insensitivity of keywords, chunking independence beyond byte-wise reads.",
   ref="DESIGN.md §4 C10"),
  "C11": dict(
